@@ -192,6 +192,11 @@ def wire_form(prog: Program, cls, exact: bool = False) -> set[str]:
             raw_guards = list(p.guards()) + list(extra)
             if any((not pol) and g[0] == "boolop" and g[1] == "and" and any(T.is_call_to(o, "builtins.isinstance") and o[2] == (PAT, ("ref", "builtins.str")) for o in g[2]) and any(T.contains(o, lambda y: y == ("attr", PAT, "__class__")) for o in g[2]) for g, pol in raw_guards):
                 known_exact = True
+            # (the same as a guard that held: `if not isinstance(p, str) or p.__class__ is str: return p`)
+            def _harmless(o):
+                return (o[0] == "not" and T.is_call_to(o[1], "builtins.isinstance") and o[1][2] == (PAT, ("ref", "builtins.str"))) or (o[0] == "cmp" and o[1] == "is" and ("attr", PAT, "__class__") in o[2:4] and ("ref", "builtins.str") in o[2:4])
+            if any(pol and g[0] == "boolop" and g[1] == "or" and all(_harmless(o) for o in g[2]) for g, pol in raw_guards):
+                known_exact = True
             forms.add("pattern" if known_exact else "pattern-raw")
             continue
         if r[0] == "call" and T.refname(r[1]) in ("builtins.bool", "builtins.int", "builtins.float") and r[2] == (CAST,) and not r[3]:
